@@ -30,12 +30,16 @@ EXTENDS Naturals, Sequences, FiniteSets, TLC, Json
 CONSTANTS Accepted,      \* accepted setup-file versions, e.g. {"v1", "v2"}
           Rejected,      \* rejected versions, named by failing stage: {"bad:load", "bad:find", ...}
           TruncPoints,   \* truncation points of a reference output (strings; bound to byte offsets by the harness)
-          Spellings,     \* how the input is named: "rel", "abs", "gofile", "both", "nested"
-          Cwds,          \* working directory of the process: "pkg", "root", "sibling" (inside the module), "outside" (no module there)
+          Spellings,     \* how the input is named: "rel", "abs", "gofile", "both", "nested"; "link": absolute paths (input
+                         \* and -out) spelled through a symbolic link to the module directory; "linkout": only the -out path is
+          Placement,     \* how content gets to an output path: "file" - a regular file; "link" - the path is a symbolic
+                         \* link to a file of a collection directory outside the module.  The ideal tool ignores it.
+          Cwds,          \* working directory of the process: "pkg", "root", "sibling" (inside the module), "outside" (no module there),
+                         \* "pkglink" (the package directory, entered through a symbolic link to the module directory)
           RecordHist,    \* TRUE: keep the action history (simulation walks); FALSE: exhaustive graph
           MaxHist,
           FlagSets,      \* the flag records explored by Run
-          EnvActions     \* which environment actions are enabled: subset of {"edit","crash","corrupt","extend","blockD","blockC","remove"}
+          EnvActions     \* which environment actions are enabled: subset of {"edit","crash","crashC","corrupt","extend","blockD","blockC","remove"}
 
 Versions == Accepted \cup Rejected
 Accepts(v) == v \in Accepted
@@ -86,6 +90,11 @@ Edit(v) == /\ Room /\ Env("edit") /\ v # setup /\ setup' = v
 Crash(k) == /\ Room /\ Env("crash") /\ \E v \in Accepted : outD = Gen(v) /\ outD' = Trunc(v, k)
             /\ UNCHANGED <<setup, outC, logD, logC, rest, last>>
             /\ Record([a |-> "crash", k |-> k])
+
+\* the same at the -out path
+CrashC(k) == /\ Room /\ Env("crashC") /\ \E v \in Accepted : outC = Gen(v) /\ outC' = Trunc(v, k)
+             /\ UNCHANGED <<setup, outD, logD, logC, rest, last>>
+             /\ Record([a |-> "crashC", k |-> k])
 
 \* something appended to the output: the previous content EXTENDS what a run would write
 \* (e.g. the output of an older setup file that had one more method at the end)
@@ -150,6 +159,7 @@ Emit(a) == RecordHist \/ PrintT(<<"TRANS", ToJson([from |-> State, act |-> a, to
 Next == \/ \E v \in Versions : Edit(v) /\ Emit([a |-> "edit", v |-> v])
         \/ \E f \in FlagSets, sp \in Spellings, cwd \in Cwds : Run(f, sp, cwd) /\ Emit([a |-> "run", f |-> f, sp |-> sp, cwd |-> cwd])
         \/ \E k \in TruncPoints : Crash(k) /\ Emit([a |-> "crash", k |-> k])
+        \/ \E k \in TruncPoints : CrashC(k) /\ Emit([a |-> "crashC", k |-> k])
         \/ \E g \in Garbage : Corrupt(g) /\ Emit([a |-> "corrupt", g |-> g])
         \/ Extend /\ Emit([a |-> "extend"])
         \/ BlockD /\ Emit([a |-> "blockD"])
@@ -187,7 +197,7 @@ PrintEqualsWritten == [][\A f \in FlagSets, sp \in Spellings, cwd \in Cwds :
 LogInert == \A f \in FlagSets : LogOpenable(f) =>
               LET g == [f EXCEPT !.log = ~f.log] IN
                 LogOpenable(g) => ExitOf(f) = ExitOf(g) /\ Writes(f) = Writes(g) /\ StdoutOf(f) = StdoutOf(g)
-TypeOK == /\ setup \in Versions
+TypeOK == /\ setup \in Versions /\ Placement \in {"file", "link"}
           /\ logD \in {"absent", "log"} /\ logC \in {"absent", "log"}
           /\ last.exit \in {"none", "0", "1"}
 
